@@ -1012,3 +1012,15 @@ PROPS["C18"]["assumptions"] = list(PROPS["C18"]["assumptions"]) + ["the position
 PROPS["C18"]["trusted_base"] = list(PROPS["C18"]["trusted_base"]) + ['qml_text writes `import M <version> as <alias>`']
 PROPS["C07"]["rule"] += '  (h) COMPONENT SETS (`set`, 292 cases): several QML files in one or two directories (string import "../lib"), 15 shapes: self-root, self-root-child, self-child, cycle2, cycle3, import-cycle, import-self, cross-dir-cycle, chain-into-cycle, diamond-cycle, diamond-ok (valid diamond + an UNUSED 2-cycle in the same directory), mutual-child, cycle-behind-child, chain-ok, dangling; each with the instance as root / as child of the main document x static / dynamic binding / callback, ASCII and non-ASCII component names; through the real CLI (242 runs, 20 s limit: every file alone and all on one command line, also --no-dynamic-binding): exit 0/1, 0 iff every .ui written, 1 only with a report; in-process through qmldir::populate_directories + uigen::build with ONE fresh type map per set in all three modes: 42 sets without a reachable inheritance cycle plus <= 8 cyclic sets per run (chosen by the seed, run LAST because a hang costs a worker). A document that instantiates a component whose chain of roots never reaches a Qt class must be refused in every mode and never written; the sets valid by construction must be accepted. New requests (c07-set (files …) (sources …)), (c07-cli-set generate|reject (files …) (sources …)). (i) BOUNDARY CONSTANTS (`bc`, 8 835 cases): 41 integer operands (i64 min…max, +-2^31, 2^31+-1, 2^32, 2^53, 2^53+1, literals that do not fit such as 2^63 / 2^64, hex / octal / legacy-octal / binary / `_` spellings, folded expressions such as `-9223372036854775807 - 1`, `1 << 62`) and 20 double operands (+-1e308, 1e309, -0.0, NaN / +-inf as folded divisions, +-2^63.0, denormal, `.5`, `5.`) under 14 binary integer operators, 3 shifts x 12 shift counts, logical, ternary, 7 unary forms, 21 cast forms (incl. the unsupported ones), double x double, mixed int/double, Math.max/min, .arg, subscripts, switch labels, let chains; bound to int / uint / double / bool / QString / enum / flags properties and in callbacks, CONSTANT (folded) and DYNAMIC (one operand a property read, so the folder is bypassed); totality in all three modes + 54 CLI runs.'
 PROPS["C07"]["level_note"] += ' quick 27 081 cases (was 8 401), 1 429 CLI runs, wall about 55 s.'
+
+# ---- round-4 text deltas (forms): attached layout properties located in the .ui; CLI leg of the mode comparison
+PROPS["C04"]["rule"] += (" Attached layout properties have a checkable fate: per layout a set of attached families, most often exactly one, with a "
+                         "non-default value; the value must stand in the matching attribute of the parent <layout> (rowstretch / columnstretch / "
+                         "rowminimumheight / columnminimumwidth / stretch), or on the <item> for row / column / spans / alignment; the index within "
+                         "the attribute is C12's subject.")
+PROPS["C04"]["assumptions"] = list(PROPS["C04"]["assumptions"]) + [
+    "[updated] flow / columns / rows count as consumed by the layout (DESIGN §4); every other attached layout property is located in the .ui "
+    "(it no longer counts as 'embedded' by assumption)"]
+PROPS["C14"]["rule"] += (" For one oracle case in eight the real CLI is run without and with `--no-dynamic-binding` in fresh temp dirs; exit status, the "
+                         "set of files written, .ui bytes and header bytes must equal the in-process generate and reject results respectively.")
+PROPS["C20"]["level_note"] += ("; the per-row/per-column attributes of the layout holding the faulted object are treated as that object's own attached values")
